@@ -47,6 +47,7 @@ type outcome struct {
 const exitRestart = 3
 
 var outPort = eval.DummyOutputPort
+var childEv *eval.Evaler
 
 func childMain() {
 	job := os.Getenv("C17_JOB")
@@ -97,17 +98,26 @@ func childMain() {
 
 func runCall(c call, base string, huge vals.List, deadline, grace time.Duration) outcome {
 	out := outcome{ID: c.ID}
-	dir, err := os.MkdirTemp(base, "call-")
-	if err != nil {
+	// one scratch directory per child, emptied after every call that left something in it
+	dir := filepath.Join(base, fmt.Sprintf("cwd-%d", os.Getpid()))
+	if err := os.MkdirAll(dir, 0o755); err != nil {
 		fmt.Fprintln(os.Stderr, "C17-CHILD-INFRA:", err)
 		os.Exit(4)
 	}
 	os.Chdir(dir)
 	defer func() {
-		os.Chdir(base)
-		os.RemoveAll(dir)
+		os.Chdir(dir)
+		if ents, err := os.ReadDir(dir); err == nil {
+			for _, e := range ents {
+				os.RemoveAll(filepath.Join(dir, e.Name()))
+			}
+		}
 	}()
-	ev := elv.New()
+	// one Evaler per child; every call gets a fresh global namespace holding the pool variables
+	if childEv == nil {
+		childEv = elv.New()
+	}
+	ev := childEv
 	nb := eval.BuildNs().AddVar("c17-hugelist", vars.NewReadOnly(huge))
 	var toClose []*os.File
 	if strings.Contains(c.Code, "$c17-file") {
@@ -132,7 +142,7 @@ func runCall(c call, base string, huge vals.List, deadline, grace time.Duration)
 			nb = nb.AddVar("c17-exc", vars.NewReadOnly(o.Values[0]))
 		}
 	}
-	ev.ExtendGlobal(nb.Ns())
+	global := nb.Ns()
 	defer func() {
 		for _, f := range toClose {
 			f.Close()
@@ -159,7 +169,7 @@ func runCall(c call, base string, huge vals.List, deadline, grace time.Duration)
 			}
 			done <- r
 		}()
-		r.err = ev.Eval(parse.Source{Name: "[c17]", Code: c.Code}, eval.EvalCfg{Ports: []*eval.Port{nil, outPort, outPort}, Interrupts: ctx})
+		r.err = ev.Eval(parse.Source{Name: "[c17]", Code: c.Code}, eval.EvalCfg{Ports: []*eval.Port{nil, outPort, outPort}, Interrupts: ctx, Global: global})
 	}()
 	finish := func(r res) outcome {
 		out.Ms = time.Since(t0).Milliseconds()
